@@ -119,6 +119,9 @@ impl Buffer {
     /// even if `num_words` is zero.
     #[inline]
     pub fn allocate(num_words: usize) -> Self {
+        if num_words > Self::MAX_CAPACITY {
+            panic_allocate_too_much()
+        }
         Self::allocate_exact(Self::default_capacity(num_words))
     }
 
@@ -150,6 +153,10 @@ impl Buffer {
             let new_layout = Layout::array::<Word>(capacity).unwrap();
             let new_ptr =
                 alloc::alloc::realloc(self.ptr.as_ptr() as _, old_layout, new_layout.size());
+
+            if new_ptr.is_null() {
+                panic_out_of_memory();
+            }
 
             // update allocation info
             self.ptr = NonNull::new(new_ptr).unwrap().cast();
